@@ -256,6 +256,7 @@ func execSrecv(f []string) (string, string) {
 		} else {
 			tags["sreject"] = true
 		}
+		tags[fmt.Sprintf("sstate%d", idx)] = true
 	}
 	total := 0
 	var rs []string
@@ -287,7 +288,55 @@ func execSrecv(f []string) (string, string) {
 	return fmt.Sprintf("st=%d can=%d n=%d %s", idx, can, total, strings.Join(rs, " ")), tag
 }
 
+// genSrecvTable: the member is walked into state `st` (every one of the 12 states is drawn equally
+// often), then a battery of messages that must be rejected there (another session / attempt, a
+// member excluded from the attempt, the member itself, another operator's key, an index outside the
+// final group, a foreign payload) plus genuine ones of random kinds is delivered.
+func genSrecvTable(r *hx.Rng) string {
+	n := r.Range(3, 5)
+	self := r.Range(1, n)
+	ex := r.Range(1, n)
+	for ex == self {
+		ex = r.Range(1, n)
+	}
+	seats := make([]int, n)
+	for i := range seats {
+		seats[i] = i + 1
+	}
+	other := 1
+	for other == self || other == ex {
+		other++
+	}
+	sess := r.Intn(3)
+	st := r.Intn(12)
+	var evs []string
+	for i := 0; i < st; i++ {
+		evs = append(evs, ">")
+	}
+	var msgs []string
+	for i := 0; i < 3; i++ {
+		k := r.Intn(10)
+		msgs = append(msgs,
+			fmt.Sprintf("%d.%d.%d.%d", k, other, other, (sess+1+r.Intn(2))%3), // other session / attempt
+			fmt.Sprintf("%d.%d.%d.%d", r.Intn(10), ex, ex, sess),              // excluded from the attempt
+			fmt.Sprintf("%d.%d.%d.%d", r.Intn(10), self, self, sess),          // own message
+			fmt.Sprintf("%d.%d.%d.%d", r.Intn(10), other, ex, sess),           // another operator's key
+			fmt.Sprintf("%d.%d.%d.%d", r.Intn(10), hx.Pick(r, []int{0, n + 1, 255}), other, sess),
+			fmt.Sprintf("10.%d.%d.%d", other, other, sess),
+			fmt.Sprintf("%d.%d.%d.%d", r.Intn(10), other, other, sess), // genuine
+		)
+	}
+	p := r.Perm(len(msgs))
+	for _, j := range p {
+		evs = append(evs, msgs[j])
+	}
+	return fmt.Sprintf("srecv %d %d %d %s %d %s", n, self, ex, hx.JoinInts(seats), sess, hx.JoinStrs(evs))
+}
+
 func genSrecv(r *hx.Rng) string {
+	if r.Chance(1, 2) {
+		return genSrecvTable(r)
+	}
 	n := r.Range(2, 5)
 	self := r.Range(1, n)
 	var excl []int
